@@ -13,7 +13,8 @@ from codemodder.codemods.base_codemod import ToolRule
 from codemodder.codetf import Change, ChangeSet, CodeTF, DetectionTool, Finding, Reference, Rule, UnfixedFinding
 from codemodder.context import CodemodExecutionContext
 from codemodder.utils.update_finding_metadata import update_finding_metadata
-from harness import skel
+from harness import c09, skel
+from harness.c11 import perm
 from harness.c04 import _run_writer
 from vlib.core import NoLog, fin, known_active
 from vlib.main import Xh
@@ -141,6 +142,20 @@ def writer_change_lines(kind: int, variant: int, two: bool) -> bool:
     return fin(ok)
 
 
+def report_in_execution_order(p: int, n: int, s0: bool, s1: bool, s2: bool) -> bool:
+    """codemodder.apply_codemods + compile_results over every order of n <= 3 codemods, each find-and-fix or
+    tool-driven (symbolic): the report lists one result per executed codemod in the order in which they were
+    actually executed.
+    pre: 1 <= n <= 3
+    post: _
+    """
+    sel = perm(p)[:n]
+    ctx, cms, log = c09._batch(sel, [False, False, False], [1, 1, 1], (s0, s1, s2))
+    executed = [cid for kind, cid in log if kind == "apply"]
+    report = [r.codemod for r in ctx.compile_results(cms)]
+    return fin(report == executed and executed == [c09.IDS[i] for i in sel])
+
+
 def planted_foreign_leak(nc0: int) -> bool:
     """Self-test: a compile_results that returns every codemod's changesets for each codemod must be refuted.
     pre: 0 <= nc0 <= 2
@@ -161,6 +176,7 @@ def warmup():
     for k in range(4):
         for v in range(2):
             writer_change_lines(k, v, True)
+    report_in_execution_order(3, 3, True, False, True)
 
 
 SPEC = {
@@ -195,6 +211,7 @@ SPEC = {
         Xh("changeset_libcst", 150, 300),
         Xh("changeset_regex_xml", 150, 300),
         Xh("writer_change_lines", 150, 300),
+        Xh("report_in_execution_order", 200, 400),
         Xh("planted_foreign_leak", 60, 120, twin=False, expect="refuted"),
     ],
 }
